@@ -7,3 +7,5 @@ for p in "$@"; do
   ( cd /verif && VH_VERIF_DIR=/root/bgout/seedtry ./check $p --tier $tier 2>&1 | cut -c1-420 | grep -E "VIOLATION|class=|MACHINERY|KNOWN|$tier:" | head -8 )
 done
 git -C /repo checkout -- . ; git -C /repo status --short
+# leave a clean binary behind (the harness links the bitcask crate statically)
+( cd /verif/harness && cargo build --profile vh --offline >/dev/null 2>&1 )
